@@ -19,6 +19,16 @@ Hypotheses (all decidable):
                                     segments is not needed once `countEndsS` holds (its top-level clause says the first tag of the next
                                     segment ends this one), so the `…_levels` theorems are the stronger ones;
   wfMsg d m, getMsgType …, lookupReg … - as in `Props/C13.lean`.
+What is proved:
+  * sufficiency   - `C13Shared_roundtrip` (+ `_levels`), re-encode / `==` / encodes / class, `C13Shared_statement`;
+  * necessity     - `C13Shared_countEnds_necessary`, `C13Shared_roundtrip_iff` (round trip ⟺ `countEndsS`),
+                    `C13Shared_roundtrip_iff_countEnds`, `C13Shared_violating_countEnds` (W-S5's predicate, on its domain);
+  * any header    - `C13Shared_statement_any_order` (+ `_levels`): MsgType anywhere in the header, with ONE more hypothesis that shared
+                    tags make necessary: tag 35 is not nested inside a header group (`C13Shared_msgtype_nested_35`, replayed on the
+                    implementation: `Message.from_bytes` raises KeyError('X') on `627=1|35=X|35=D|58=a|`);
+  * the old domain (`wfDef`) is inside the new one (`C13Shared_extends_wfDef_levels`).
+Not needed by any theorem: "a tag has the same field type wherever it occurs" and "count tags occur once" (`dict_ok` of harness/c13.py
+asks for them; in the model every level has its own table, the implementation keeps process-global registries).
 Only property theorems and non-vacuity examples live here.
 -/
 namespace NasdaqModel.Props.C13SharedGen
